@@ -52,7 +52,17 @@ mutual
 /-- one entry of the copied array with its default materialised -/
 def mkOpt (ci : CfgInfo) : Decl → Opt
   | .mk info flags subs =>
-    if flags.nodefault then .mk info flags subs [] none
+    -- CFG_SIMPLE_*: the option's one value cell is a variable of the caller's.  The model keeps that cell where every
+    -- scalar option keeps its cell (`vals = [cell]`); it starts out holding what the variable holds (written in the
+    -- declaration's default column), and `cfg_init_defaults` leaves the option alone: no DEFINIT, no RESET
+    if info.simple then
+      .mk info flags subs (match info.ty with
+        | .int => [.int info.defInt]
+        | .float => [.flt info.defFlt]
+        | .bool => [.bool info.defBool]
+        | .str => [.str info.defStr]
+        | _ => []) none
+    else if flags.nodefault then .mk info flags subs [] none
     else if info.ty != .sec then
       let f1 := { flags with definit := true }
       if flags.list || info.defList.isSome then
